@@ -90,6 +90,13 @@ def run_unit(u, tier, seed, canary):
                                           # up to the resource limit per assertion and may take far longer under another seed
                                           seed=(None if canary else int(os.environ["VERIF_Z3_SEED"]) if os.environ.get("VERIF_Z3_SEED") else (seed if tier == "thorough" and seed else None)))
     res = V.classify(u, spans, out, err, rc, wall, cmd)
+    used = (None if canary else int(os.environ["VERIF_Z3_SEED"]) if os.environ.get("VERIF_Z3_SEED") else (seed if tier == "thorough" and seed else None))
+    if used is not None and not os.environ.get("VERIF_Z3_SEED") and (res.failed or res.undecided):
+        # a proof found under ANY z3 seed is a proof: what does not go through with the tier's seed is tried once more with the default seed
+        cmd2, out2, err2, rc2, wall2 = V.run_verus(path, rlimit=rl, timeout=getattr(u, "timeout", 900), multiple_errors=20, seed=None)
+        res2 = V.classify(u, spans, out2, err2, rc2, wall + wall2, cmd2)
+        res2.note = f"z3 seed {used}: {len(res.failed)} failed / {len(res.undecided)} undecided; re-run with the default seed"
+        res = res2
     res.path, res.text = path, text
     return res
 
